@@ -242,6 +242,11 @@ def _dump_load(col, rule="C11.R5"):
                  and (not dom[2] or dom[2] == (("const", "None"),))) or dom == S.mcall(S.sattr("tasks"), "values")
         if not whole:
             ok, facts = False, f"searched among {S.show(dom)[:120]} (not all tasks)"
+        under = [c for c in sx.conds(y.nid)]
+        owner_test = [c for c in under if S.is_call_of(c, ("glob", "_check_root_owner")) and len(c[2]) == 2
+                      and c[2][0] == ("attr", mm["t"], "taskid") and c[2][1] == sx.P(0)]
+        if len(owner_test) != 1 or len(under) != 1:
+            ok, facts = False, f"yielded under {[S.show(c) for c in under]} (expected exactly: the task's target lies under the container)"
     col.add(rule, "Manager.iter_expr_tasks_owner#yields-(str(target),str(expr))", ok, sx.loc(sx.fn),
             "the definitions copied are (str(taskid), str(expr)) of the tasks under the container", facts)
     # ---- copy_expr_from
